@@ -1,8 +1,6 @@
 """C03: LDPC-Staircase of_finish_decoding is ML-complete."""
 import vlib, session_check, sessions
 
-LEVEL = "exploration"
-
 
 def gen_extra(rng, tier):
     """received sets at the ML threshold: exactly k .. k+3 symbols, both APIs, several orders of the same set"""
@@ -20,6 +18,8 @@ def gen_extra(rng, tier):
 
 
 def run(c):
+    c.prove(["Properties_C03.v"])
     q = c.tier == "quick"
     session_check.run_sessions(c, (sessions.LDPC,), {"C03"}, 200 if q else 3000, 1200 if q else 20000, extra_reqs=gen_extra(c.rng, c.tier), big=not q)
-    c.trusted = vlib.BASE_TRUST + ["the ML finish path (simplification, dense system creation, copy-out) is not modelled in Coq yet: the iff is decided on the C by an independent GF(2) elimination over the matrix dumped from the session"]
+    c.trusted = vlib.BASE_TRUST + ["ITModel.v / MLModel.v / DenseSolve.v: hand-written mirrors of the streaming decoder and of the ML finish (callbacks, buffers and the counters nb_*_symbol_ready are not state of the model); tied to the C by replaying every finish session on the extracted model (stream J: statuses, completion, masks, decoded values) and by an independent GF(2) elimination on the C's matrix and received set",
+                                    "hypotheses of the theorems about the matrix (duplicate-free rows of degree >= 2, every column covered, staircase shape) are evaluated on the matrix of every session"]
